@@ -32,7 +32,7 @@ func newVC(P *Program, fn *ssa.Function, spec *FuncSpec) *VC {
 		declared: map[string]bool{}, vals: map[ssa.Value]Term{}, tuples: map[ssa.Value][]Term{},
 		stateSort: map[string]string{}, written: map[*ssa.BasicBlock]map[string]map[string]bool{},
 		lets: map[string]Term{}, usedExterns: map[string]bool{}, usedSpecs: map[string]bool{},
-		funDecls: map[string]bool{}, recInfo: map[string]*recInfo{}, allocBlock: map[string]*ssa.BasicBlock{}}
+		funDecls: map[string]bool{}, recInfo: map[string]*recInfo{}, allocBlock: map[string]*ssa.BasicBlock{}, globalPkg: map[string]string{}}
 	return vc
 }
 
@@ -41,7 +41,9 @@ func (vc *VC) reset() {
 	w := vc.written
 	ab := vc.allocBlock
 	su := vc.symsUsed
+	kv := vc.stateSort
 	*vc = *newVC(vc.P, vc.fn, vc.spec)
+	vc.knownVars = kv
 	// the write sets of the discovery pass are frozen: the real pass records into a scratch map
 	vc.writtenFrozen = w
 	vc.symsFrozen = su
@@ -771,10 +773,20 @@ func (vc *VC) loopEnv(li *loopInfo, st *State, phiVal func(*ssa.Phi) Term) *Env 
 
 // bindDebugNames makes source-level local variable names available in loop
 // clauses when they map to exactly one SSA value.
-func (vc *VC) bindDebugNames(e *Env, li *loopInfo) {
+func (vc *VC) bindDebugNames(e *Env, li *loopInfo) { vc.bindLocalsAt(e, li.header, false) }
+
+// bindLocalsAt binds the named local variables visible at block `at` (at its start, or -- when
+// inclusive -- at the instruction currently being executed in it): SSA values through their debug
+// references, and variables living in cells (captured or address-taken) through the name of the cell.
+func (vc *VC) bindLocalsAt(e *Env, at *ssa.BasicBlock, inclusive bool) {
 	cands := map[string]map[ssa.Value]bool{}
+	cells := map[string][]*ssa.Alloc{}
 	for _, b := range vc.fn.Blocks {
 		for _, in := range b.Instrs {
+			if a, ok := in.(*ssa.Alloc); ok && a.Comment != "" {
+				cells[a.Comment] = append(cells[a.Comment], a)
+				continue
+			}
 			d, ok := in.(*ssa.DebugRef)
 			if !ok || d.IsAddr {
 				continue
@@ -792,18 +804,35 @@ func (vc *VC) bindDebugNames(e *Env, li *loopInfo) {
 			cands[obj.Name()][d.X] = true
 		}
 	}
+	visible := func(in ssa.Instruction) bool {
+		if in.Block() == nil {
+			return false
+		}
+		if in.Block() == at {
+			if !inclusive {
+				return false
+			}
+			v, isVal := in.(ssa.Value)
+			if !isVal {
+				return false
+			}
+			_, done := vc.vals[v]
+			return done
+		}
+		return in.Block().Dominates(at)
+	}
 	for name, vs := range cands {
 		if _, bound := e.vars[name]; bound {
 			continue
 		}
 		if len(vs) != 1 {
-			// several SSA values carry this name: the one current at the loop header is the
-			// definition that dominates the header and is dominated by every other such definition
+			// several SSA values carry this name: the one current at the point is the definition that
+			// dominates it and is dominated by every other such definition
 			var best ssa.Instruction
 			ambiguous := false
 			for v := range vs {
 				in, ok := v.(ssa.Instruction)
-				if !ok || in.Block() == nil || !in.Block().Dominates(li.header) || (in.Block() == li.header) {
+				if !ok || !visible(in) {
 					continue
 				}
 				switch {
@@ -831,6 +860,40 @@ func (vc *VC) bindDebugNames(e *Env, li *loopInfo) {
 			} else if c, ok := v.(*ssa.Const); ok {
 				e.vars[name] = vc.constVal(c)
 			}
+		}
+	}
+	for name, as := range cells {
+		if _, bound := e.vars[name]; bound {
+			continue
+		}
+		if _, bound := e.vars["&"+name]; bound {
+			continue
+		}
+		var best *ssa.Alloc
+		ambiguous := false
+		for _, a := range as {
+			if !visible(a) {
+				continue
+			}
+			switch {
+			case best == nil:
+				best = a
+			case a.Block() == best.Block():
+				if instrIndex(a) > instrIndex(best) {
+					best = a
+				}
+			case best.Block().Dominates(a.Block()):
+				best = a
+			case a.Block().Dominates(best.Block()):
+			default:
+				ambiguous = true
+			}
+		}
+		if best == nil || ambiguous {
+			continue
+		}
+		if t, ok := vc.vals[best]; ok {
+			e.vars["&"+name] = t
 		}
 	}
 }
